@@ -76,6 +76,11 @@ func runC01(c *eng.Ctx) {
 	ruleErrorGates(c, "server/commitlog")
 	c.Floor(20)
 
+	// ---- R01.14 (shared) readers look segments up in a freshly fetched list
+	c.Rule("R01.14", "K5")
+	ruleFreshSegmentList(c)
+	c.Floor(3)
+
 }
 
 func ruleOffsetIdentity(c *eng.Ctx) {
